@@ -107,7 +107,8 @@ def oracle_c11(ctx, d, rec):
     r = rec['result']
     ctx.count_eval(key=(json.dumps(rec['op'][:4], default=str), rec['freq'], rec['pre']))
     log = rec['log']
-    rep = [o for _, o in log if o[0] == 'err' and o[1] in ('RepeatLeadInError', 'RepeatLeadOutError', 'RepeatTimeoutExpired')]
+    rep = [o for _, o in log if o[0] == 'err' and o[1] in ('RepeatLeadInError', 'RepeatLeadOutError', 'RepeatTimeoutExpired',
+                                                    'ExpectingMoreData')]
     possible = [i for i, (en, nominal, ftol) in enumerate(rec['cfg'])
                 if en and (rec['freq'] == 0 or dr.float_match(rec['freq'], nominal, ftol))]
     data = rec['op'][4] if rec['op'][0] == 'frame' else rec['op'][1]
